@@ -13,6 +13,8 @@ TRUSTED = [
     "the scheduler assumes every relevant interleaving point carries a verifhook.Yield or is a Store/Locker/Monitor call",
     "the account locker behind the commander in these runs is scheduler-native and implements the contract proved for DefaultLocker under C15",
     "harness store: durable log + views derived by a fold (the SQL projection is C04's business)",
+    "events: the real bus.NewLedgerMonitor publishes into a recording message.Publisher; each message is decoded (generic JSON) back into the event "
+    "record the oracles and the Events machine consume; the request a message belongs to is the actor bound to the message's context",
     "extract/commander (go/ast translator of internal/engine/command into Generated/Commander.lean): its reading of the Go control flow, its "
     "table of protocol actions, the rule that a call mentioning none of the commander's resources cannot touch the protocol, and the "
     "recorded bodies of the primitives (Referencer.take/release, keepUntilTerminated, terminated, Batcher.Append); tied to the running code by "
@@ -32,6 +34,16 @@ def tx_logs(durable):
 
 def ptuple(ps):
     return tuple(tuple(p) for p in ps)
+
+
+def producers(run):
+    """persisted entry (by its hash) -> the request that committed it, from the scheduler's observation of the commander's last log
+    after each turn; independent of what the entry says about itself (its recorded key, its content)"""
+    by_hash = {}
+    for t in run["trace"]:
+        if isinstance(t, dict) and "committed" in t and t["committed"].get("hash"):
+            by_hash[t["committed"]["hash"]] = t["a"]
+    return {l["id"]: by_hash[l["hash"]] for l in run["durable"] if l.get("hash") in by_hash}
 
 
 # ---------------------------------------------------------------- C05
@@ -111,6 +123,10 @@ def oracle_c06(scn, run):
 
 # ---------------------------------------------------------------- C07
 
+def show_key(ik):
+    return repr(ik) if len(ik) <= 40 else "%r… (%d bytes)" % (ik[:24], len(ik.encode()))
+
+
 def oracle_c07(scn, run):
     v = []
     d = run["durable"][run["n_funding"]:]
@@ -119,20 +135,24 @@ def oracle_c07(scn, run):
     for i, q in enumerate(reqs):
         if q.get("ik") and not q.get("dry"):
             by_ik[q["ik"]].append(i)
+    prod = producers(run)
     for ik, members in by_ik.items():
         n_logs = sum(1 for l in d if l["ik"] == ik)
         # effects of metadata writes are recognised by their content (their log may not carry the key)
-        eff = n_logs
+        by_content = set()     # each entry is one effect, however many requests of the group it matches
         for i in members:
             q = reqs[i]
             if q["kind"] == "setmeta":
-                eff += sum(1 for l in d if l["type"] == "SET_METADATA" and l["ik"] != ik and l["metadata"].get(q["key"]) == q["val"])
+                by_content |= {l["id"] for l in d if l["type"] == "SET_METADATA" and l["ik"] != ik and l["metadata"].get(q["key"]) == q["val"]}
+        eff = n_logs + len(by_content)
         kinds = sorted({reqs[i]["kind"] for i in members})
+        # effects counted by WHO wrote: persisted entries committed by requests carrying this key (whatever key the entry records)
+        eff = max(eff, sum(1 for a in prod.values() if a in members))
         if eff > 1:
-            v.append(({"class": "took-effect-twice", "kinds": ",".join(kinds)}, "idempotency key %r took effect %d times" % (ik, eff)))
+            v.append(({"class": "took-effect-twice", "kinds": ",".join(kinds)}, "idempotency key %s took effect %d times" % (show_key(ik), eff)))
         txs = {r["tx"]["id"] for r in run["responses"] if r["ok"] and r["req"] in members and r["tx"]}
         if len(txs) > 1:
-            v.append(({"class": "different-outcomes", "kinds": ",".join(kinds)}, "successful writes with key %r returned transactions %s" % (ik, sorted(txs))))
+            v.append(({"class": "different-outcomes", "kinds": ",".join(kinds)}, "successful writes with key %s returned transactions %s" % (show_key(ik), sorted(txs))))
     return v
 
 
@@ -167,6 +187,31 @@ def oracle_c10(scn, run):
         for l in ls:
             if ptuple(l["tx"]["postings"]) != want:
                 v.append(({"class": "not-the-reverse"}, "the revert of %s does not carry the reversed postings" % tid))
+    # an unforced revert is refused rather than overdrawing an account: walk the log, and at every revert entry committed by a
+    # request WITHOUT `force` (the request that wrote it; if unknown: no revert request of that transaction was forced) no
+    # account other than world may go below zero at any posting
+    reqs = scn["requests"]
+    prod = producers(run)
+    bal = collections.defaultdict(int)
+    for l in d:
+        if l["type"] not in ("NEW_TRANSACTION", "REVERTED_TRANSACTION"):
+            continue
+        unforced = False
+        if l["type"] == "REVERTED_TRANSACTION" and not l["funding"]:
+            a = prod.get(l["id"])
+            if a is not None and a < len(reqs) and reqs[a]["kind"] == "revert":
+                unforced = not reqs[a].get("force")
+            else:
+                cands = [q for q in reqs if q["kind"] == "revert" and str(q.get("target")) == l["reverted"]]
+                unforced = bool(cands) and not any(q.get("force") for q in cands)
+        for src, dst, amt, asset in l["tx"]["postings"]:
+            amt = int(amt)
+            if unforced and src != "world" and amt > 0 and bal[(src, asset)] - amt < 0:
+                v.append(({"class": "unforced-revert-overdraws"},
+                          "entry %s, the unforced revert of transaction %s, takes %d %s from %s which holds %d at that point" % (
+                              l["id"], l["reverted"], amt, asset, src, bal[(src, asset)])))
+            bal[(src, asset)] -= amt
+            bal[(dst, asset)] += amt
     return v
 
 
@@ -176,6 +221,8 @@ def expected_postings(q):
     """(src, dst, amount) of the postings a `create` of the generator commits, None for the multi-send form"""
     if q.get("sends"):
         return None
+    if q.get("pass"):
+        return [("world", q["src"], str(q["amount"])), (q["src"], q["dst"], str(q["pass"]))]
     ps = [(q["src"], q["dst"], str(q["amount"]))]
     if q.get("via") in ("alias", "aliasmeta"):   # the source is named a second time, by a variable that is only a destination
         ps.append(("world", q["src"], "1"))
@@ -245,6 +292,26 @@ def oracle_c16(scn, run):
         for l in d[run["n_funding"]:]:
             if not any(match_event(e, [l]) for e in run["events"]):
                 v.append(({"class": "entry-without-event", "type": l["type"]}, "entry %s (%s) was never published" % (l["id"], l["type"])))
+    # run["events"] is what reached the message.Publisher behind the real ledgerMonitor; run["events_iface"] what the commander asked
+    # the monitor to announce: every announcement reaches the bus with the same content, and nothing else does
+    def content(e):
+        return canon({k: x for k, x in e.items() if k not in ("durable", "envelope_ok")})
+    left = collections.Counter(content(e) for e in run["events"])
+    for e in run.get("events_iface", []):
+        if left[content(e)] > 0:
+            left[content(e)] -= 1
+        else:
+            same_kind = any(x["type"] == e["type"] and x.get("a") == e.get("a") for x in run["events"])
+            v.append(({"class": "event-dropped-by-monitor" if not same_kind else "event-altered-by-monitor", "type": e["type"]},
+                      "request %s asked the monitor to announce a %s event (%s); %s" % (
+                          e.get("a"), e["type"], (e.get("tx") or e.get("revert") or {}).get("id", e.get("target")),
+                          "a different one reached the bus" if same_kind else "nothing reached the bus")))
+    for c, n in left.items():
+        if n > 0:
+            v.append(({"class": "event-not-asked-for", "type": json.loads(c)["type"]}, "a message reached the bus that the commander never asked the monitor to publish"))
+    for e in run["events"]:
+        if e.get("envelope_ok") is False:
+            v.append(({"class": "event-envelope", "type": e["type"]}, "a published message has the wrong topic / type / app / version / ledger or does not decode"))
     return v
 
 
@@ -255,11 +322,29 @@ def oracle_c14(scn, run):
     non_dry = sum(1 for q in reqs if not q.get("dry"))
     if len(d) > non_dry:
         v.append(({"class": "preview-persisted"}, "%d entries for %d real writes" % (len(d), non_dry)))
+    # … and by WHO wrote: an entry committed by a request submitted as a preview (whatever the totals are)
+    for lid, a in sorted(producers(run).items(), key=lambda x: int(x[0])):
+        if a < len(reqs) and reqs[a].get("dry"):
+            l = next(x for x in run["durable"] if x["id"] == lid)
+            v.append(({"class": "preview-persisted", "kind": reqs[a]["kind"]}, "entry %s (%s) was written by request %d, a preview" % (lid, l["type"], a)))
+            break
     # an event while only previews have run so far / more events than entries
     for e in run["events"]:
         if match_event(e, run["durable"][:e["durable"]]) is None and any(q.get("dry") for q in reqs):
             v.append(({"class": "preview-published", "type": e["type"]}, "a %s event was published for a write that persisted nothing" % e["type"]))
             break
+    # … and by WHO published: a message that reached the bus from a request submitted as a preview (the entry it describes may
+    # well exist: the one recorded for its idempotency key)
+    for e in run["events"]:
+        if e.get("a") is not None and e["a"] < len(reqs) and reqs[e["a"]].get("dry"):
+            v.append(({"class": "preview-published", "type": e["type"], "keyed": bool(reqs[e["a"]].get("ik"))},
+                      "request %d, a preview, published a %s event" % (e["a"], e["type"])))
+            break
+    # … and by count: without a crash every message comes from one successfully answered real write (each publishes once)
+    if any(q.get("dry") for q in reqs) and not run["crashed"] and not restarted(run):
+        ok_real = sum(1 for r in run["responses"] if r["ok"] and not reqs[r["req"]].get("dry"))
+        if len(run["events"]) > ok_real:
+            v.append(({"class": "preview-published", "what": "count"}, "%d messages on the bus for %d successful real writes" % (len(run["events"]), ok_real)))
     # a preview answers what the real write would answer: with a recorded idempotency key, that entry
     for r in run["responses"]:
         q = reqs[r["req"]]
@@ -270,14 +355,21 @@ def oracle_c14(scn, run):
                           "a preview with the recorded key %r was answered transaction %s, the real write would answer %s" % (q["ik"], r["tx"]["id"], rec[0]["tx"]["id"])))
     tw = run.get("twin")
     if tw is not None:
-        a = [(l["type"], l["id"], (l.get("tx") or {}).get("id"), ptuple((l.get("tx") or {}).get("postings", []))) for l in run["durable"]]
-        b = [(l["type"], l["id"], (l.get("tx") or {}).get("id"), ptuple((l.get("tx") or {}).get("postings", []))) for l in tw["durable"]]
+        def row(l):  # what the entry says, metadata writes included (time stamps and hashes differ between two runs)
+            return (l["type"], l["id"], (l.get("tx") or {}).get("id"), ptuple((l.get("tx") or {}).get("postings", [])),
+                    l.get("target_type"), l.get("target"), canon(l.get("metadata")), l.get("key"), l.get("reverted"), l["ik"])
+        a = [row(l) for l in run["durable"]]
+        b = [row(l) for l in tw["durable"]]
         if a != b:
             v.append(({"class": "later-history-differs", "what": "log"}, "with the previews the log is %s, without them %s" % (a[run["n_funding"]:], b[run["n_funding"]:])))
         ra = [(r["ok"], r["err"], (r["tx"] or {}).get("id")) for r in run["responses"] if not reqs[r["req"]].get("dry")]
         rb = [(r["ok"], r["err"], (r["tx"] or {}).get("id")) for r in tw["responses"]]
         if ra != rb and a == b:
             v.append(({"class": "later-history-differs", "what": "responses"}, "responses of the real writes differ: %s vs %s" % (ra, rb)))
+        ea = [canon({k: x for k, x in e.items() if k not in ("a", "durable")}) for e in run["events"]]
+        eb = [canon({k: x for k, x in e.items() if k not in ("a", "durable")}) for e in tw["events"]]
+        if ea != eb and a == b and ra == rb:
+            v.append(({"class": "later-history-differs", "what": "events"}, "with the previews %d messages reached the bus, without them %d (or other ones)" % (len(ea), len(eb))))
     return v
 
 
@@ -297,8 +389,12 @@ def evaluate(ctx, prop, inputs, impl, nontrivial):
         for k, run in enumerate(out["runs"]):
             runs += 1
             if run.get("watchdog"):
-                ctx.l2_broken.append({"stream": "engine-scheduler-watchdog", "id": scn["id"], "plan": plans[k]})
-                continue
+                # the scheduler's prediction of the protocol failed somewhere in this run (an arrival it waited for did not come); the run
+                # was carried on and is judged below like every other one — and the wrong prediction is a broken correspondence
+                ctx.l2_broken.append({"stream": "engine-scheduler-watchdog", "id": scn["id"], "plan": plans[k], "stalls": run.get("stalls"),
+                                      "where": [t for t in run["trace"] if isinstance(t, dict) and "stall" in t][:3]})
+                if run.get("skipped"):
+                    continue
             for sig, what in ORACLES[prop](scn, run):
                 one = dict(scn, plans=[plans[k]])
                 ctx.violation(dict(sig, property=prop), what, {"area": "engine", "input": one, "observed": {k2: run[k2] for k2 in ("durable", "responses", "events", "crashed")}})
@@ -310,7 +406,7 @@ def evaluate(ctx, prop, inputs, impl, nontrivial):
 
 
 def distribution(inputs, impl):
-    kinds, outcomes, shape = collections.Counter(), collections.Counter(), collections.Counter()
+    kinds, outcomes, shape, hist = collections.Counter(), collections.Counter(), collections.Counter(), collections.Counter()
     for scn in inputs:
         for q in scn["requests"]:
             kinds[q["kind"] + ("-dry" if q.get("dry") else "") + ("-ik" if q.get("ik") else "") + ("-ref" if q.get("ref") else "")] += 1
@@ -335,7 +431,89 @@ def distribution(inputs, impl):
                     shape["runs_with_a_restart"] += 1
             shape["runs_where_an_entry_was_committed_while_another_waited_for_the_store"] += 1 if any_over else 0
             shape["runs_where_a_transaction_was_committed_while_a_transaction_entry_waited_for_the_store"] += 1 if tx_over else 0
-    return {"requests": dict(kinds), "outcomes": dict(outcomes), "schedules": dict(shape)}
+            for k in history_shapes(scn, run):
+                hist[k] += 1
+        for k in scenario_shapes(scn):
+            hist["scenarios: " + k] += 1
+    return {"requests": dict(kinds), "outcomes": dict(outcomes), "schedules": dict(shape), "history_shapes": dict(sorted(hist.items()))}
+
+
+def scenario_shapes(scn):
+    """static shapes of a scenario (what the generator put in)"""
+    out = set()
+    reqs = scn["requests"]
+    keys = collections.Counter(q["ik"] for q in reqs if q.get("ik") and not q.get("dry"))
+    for ik, n in keys.items():
+        if n >= 2:
+            out.add("one key on >= 2 real writes, key of %s bytes" % ("<= 35" if len(ik) < 36 else len(ik)))
+    if any(q.get("pass") for q in reqs):
+        out.add("chained transaction (world -> a n ; a -> b m, m < n)")
+    if any(q.get("dry") and q["kind"] in ("setmeta", "delmeta") for q in reqs):
+        out.add("preview of a metadata write" + (", twin run" if scn.get("twin") else ""))
+    return out
+
+
+def history_shapes(scn, run):
+    """which of the multi-step shapes this RUN went through (decided on what happened, request by request, in answer order)"""
+    out = set()
+    reqs, d = scn["requests"], run["durable"]
+    by_id = {l["tx"]["id"]: l for l in tx_logs(d)}
+    answered = [t["a"] for t in run["trace"] if isinstance(t, dict) and t.get("finish")]
+    pos = {a: k for k, a in enumerate(answered)}
+    previewed = set()                    # keys a successfully answered preview carried, so far
+    for r in sorted(run["responses"], key=lambda r: pos.get(r["req"], 1 << 30)):
+        q = reqs[r["req"]]
+        seen = d[:r["durable"]]          # what was persisted when the request was answered
+        res = "accepted" if r["ok"] else r["err"].split(":")[0]
+        if q["kind"] == "create" and q.get("ref"):
+            holders = [l for l in tx_logs(seen) if l["tx"]["reference"] == q["ref"] and not (r["ok"] and r["tx"] and l["tx"]["id"] == r["tx"]["id"])]
+            if any(x["type"] == "REVERTED_TRANSACTION" and x["reverted"] == h["tx"]["id"] for h in holders for x in seen):
+                out.add("reference submitted again after its holder was reverted: " + res)
+        if q["kind"] == "revert" and not q.get("dry"):
+            earlier = [x for x in seen if x["type"] == "REVERTED_TRANSACTION" and x["reverted"] == str(q["target"]) and
+                       not (r["ok"] and r["tx"] and x["tx"]["id"] == r["tx"]["id"])]
+            if earlier and q.get("ik") and all(x["ik"] != q["ik"] for x in earlier):
+                out.add("revert of an already reverted transaction under a fresh key (%s): %s" % ("forced" if q.get("force") else "unforced", res))
+            others = [x for x in seen if x["type"] == "REVERTED_TRANSACTION" and x["ik"] and x["reverted"] != str(q["target"])]
+            if not earlier and q.get("ik") and others and all(x["ik"] != q["ik"] for x in others):
+                out.add("revert of ANOTHER transaction under a fresh key after a keyed revert: " + res)
+            orig = by_id.get(str(q["target"]))
+            if orig is not None and len(orig["tx"]["postings"]) == 2 and orig["tx"]["postings"][0][1] == orig["tx"]["postings"][1][0] and \
+                    orig["tx"]["postings"][0][0] == "world":
+                mid = orig["tx"]["postings"][0][1]
+                spent = any(p[0] == mid for l in tx_logs(seen) if l is not orig and l["type"] == "NEW_TRANSACTION" for p in l["tx"]["postings"])
+                out.add("revert of a chained transaction, middle account %s, %s: %s" % (
+                    "spent from meanwhile" if spent else "untouched", "forced" if q.get("force") else "unforced", res))
+        if q.get("ik"):
+            rec = [l for l in seen if l["ik"] == q["ik"]]
+            mine = r["ok"] and not q.get("dry") and any(producers_cached(run).get(l["id"]) == r["req"] for l in rec)
+            if q.get("dry") and rec:
+                out.add("preview with a key recorded by a real write (%s): %s" % (q["kind"], res))
+            if not q.get("dry") and q["ik"] in previewed and (mine or not rec):
+                out.add("real write with a key a preview used before, nothing recorded yet (%s): %s" % (q["kind"], res))
+            if q.get("dry") and r["ok"]:
+                previewed.add(q["ik"])
+            if len(q["ik"]) >= 36 and rec and not mine and not q.get("dry"):
+                out.add("retry with a key of %d bytes finds the recorded entry: %s" % (len(q["ik"]), res))
+        if q.get("dry") and q["kind"] in ("setmeta", "delmeta") and r["ok"]:
+            later_real = any(not reqs[x["req"]].get("dry") and x["ok"] and x["durable"] > r["durable"] for x in run["responses"])
+            out.add("preview of a metadata write (%s target)%s" % ("account" if q.get("acct") else "transaction", ", real writes after it" if later_real else ""))
+    # events leaving the commander out of transaction-id order (two writers woken in the other order)
+    ids = [int(e["tx"]["id"]) for e in run["events"] if e["type"] == "committed" and e.get("tx") and e["tx"]["id"].isdigit()]
+    if any(b < a for a, b in zip(ids, ids[1:])):
+        out.add("COMMITTED_TRANSACTIONS messages out of transaction-id order")
+    return out
+
+
+_PROD = {}
+
+
+def producers_cached(run):
+    k = id(run)
+    if k not in _PROD:
+        _PROD.clear()
+        _PROD[k] = producers(run)
+    return _PROD[k]
 
 
 def validate_traces(ctx, inputs, impl, components=None):
@@ -498,7 +676,10 @@ def run_check(ctx, prop, components, nontrivial, rule, quick_n=120, thorough_n=1
     ctx.cov["scenarios"] = len(inputs)
     ctx.cov["distinct_nontrivial"] = nt
     ctx.cov["rule"] = ("random scenarios of 2-%d requests (create by script with the source named by a literal, a variable or a metadata lookup; revert forced or not; "
-                       "set/delete metadata; previews; shared idempotency keys and references; sequential phases and concurrent bursts) x seeded random schedules "
+                       "set/delete metadata; previews; shared idempotency keys (up to 300 bytes) and references; sequential phases and concurrent bursts) + half as many "
+                       "multi-step histories around one entry (reference resubmitted after the revert of its holder; second revert under a fresh key; one key on a real "
+                       "write and a preview; metadata previews with a twin run; chained transaction spent from, then reverted unforced / forced; write - retry - "
+                       "restart - retry under a long key) x seeded random schedules "
                        "over every yield point, persistence latency as a scheduling choice, a crash or a store failure in part of the schedules; non-trivial = %s") % (
                            4 if ctx.quick else 6, rule)
     s0 = inputs[0]
